@@ -628,6 +628,34 @@ fn tree_case(ch: &mut Chooser) -> Report {
         }
     };
     judge(&o1, &t1, &mut rep);
+    // a ratio literal that is not in lowest terms denotes the same number as the reduced one: eqv?, not merely =
+    if rep.fails.is_empty() {
+        if let Some((text, a, b)) = toks.iter().find_map(|t| {
+            if t.1 != "ratio" {
+                return None;
+            }
+            let (n, d) = t.0.trim_start_matches('+').split_once('/')?;
+            Some((t.0.clone(), n.parse::<i64>().ok()?, d.parse::<i64>().ok()?))
+        }) {
+            fn gcd(a: i64, b: i64) -> i64 {
+                if b == 0 {
+                    a.abs()
+                } else {
+                    gcd(b, a % b)
+                }
+            }
+            let g = gcd(a, b).max(1);
+            if g > 1 || b == 1 {
+                let reduced = if b / g == 1 { format!("{}", a / g) } else { format!("{}/{}", a / g, b / g) };
+                let probe = format!("(eqv? {} {})", text, reduced);
+                match eval_quote(&probe) {
+                    Outcome::Value(SVal::Bool(true)) => {}
+                    other => rep.fail("ratio-literal-not-eqv-to-its-reduced-form", format!("{} = {}", probe, other.show())),
+                }
+                rep.label("reducible-ratio-literal");
+            }
+        }
+    }
     if rep.fails.is_empty() && ch.chance(1, 5) {
         // the same text read from a program file (src/io.rs re-assembles it line by line)
         rep.label("read-from-file");
